@@ -311,6 +311,7 @@ def cases(tier):
     add("function-lmi-and-constraint", function_lmi=True, function_lmi_with_constraint=True, lmis=['one'])
     add("partition", partition=2)
     add("two-partitions", partition=2, second_partition=3)
+    add("partition-constructor", partition=2, partition_direct=True)
     add("large-gram", extra_points=70, record_only=True, concrete_params=True)
     if tier == 'thorough':
         add("gd2-cons-lmi", steps=['grad', 'grad'], cons=['le', 'eq'], lmis=['three'])
